@@ -127,6 +127,25 @@ fn check_single(c: &Single) -> CaseResult {
         .label_if(now < c.ts && c.logical > 0, "clock_earlier_logical_nonzero"))
 }
 
+/// The one input the other parts exclude: the logical counter is saturated. There the
+/// implementation may refuse (it panics on the overflow in a build with overflow checks, which is
+/// how the harness is built) or return a strictly greater value (clock ahead: next wall-clock
+/// tick) – but never hand back a value that is not greater.
+fn check_saturated(c: &Single) -> CaseResult {
+    let now = c.clock.reading(c.ts);
+    set_clock(now);
+    let t = make(c.ts, u64::MAX);
+    let outcome = std::panic::catch_unwind(|| t.increment());
+    let refused = outcome.is_err();
+    if let Ok(n) = outcome {
+        greater(&n, &t).map_err(|e| format!("saturated logical counter, clock reads {now}: increment returned instead of refusing, and {e}"))?;
+    }
+    Ok(CaseOk::nontrivial(now <= c.ts)
+        .label_if(refused, "refused_by_overflow_panic")
+        .label_if(!refused, "returned_greater")
+        .label_if(now <= c.ts, "clock_not_ahead"))
+}
+
 #[derive(Clone, Debug, Serialize, Deserialize)]
 struct Chain {
     ts: u64,
@@ -241,7 +260,7 @@ fn check_transport(c: &Transport) -> CaseResult {
 }
 
 pub fn run(mut ctx: Ctx) -> ! {
-    ctx.assume("domain excludes timestamps whose wall-clock or logical part is u64::MAX (no successor exists; unreachable by counting)");
+    ctx.assume("increment()/chain/transport parts exclude timestamps whose wall-clock or logical part is u64::MAX (unreachable by counting); part saturated_logical covers logical = u64::MAX with the weaker oracle refuse-or-greater (the harness is built with overflow checks, where the unchanged code panics there)");
     ctx.assume("the wall clock is mock_instant's thread-local MockClock (p2panda-core feature test_utils), set from the generated case before every call");
     ctx.run_prop(
         Part::new(
@@ -253,6 +272,17 @@ pub fn run(mut ctx: Ctx) -> ! {
         .min_nontrivial(0.3),
         || (wall(), logical(), clock()).prop_map(|(ts, logical, clock)| Single { ts, logical, clock }),
         check_single,
+    );
+    ctx.run_prop(
+        Part::new(
+            "saturated_logical",
+            "(wall, logical = u64::MAX) x clock reading: increment() either refuses (overflow panic in a checked build) or returns a strictly greater timestamp, never an equal or smaller one; non-trivial = clock reading <= wall-clock part (the branch that bumps the logical counter)",
+            2_000,
+            100_000,
+        )
+        .min_nontrivial(0.3),
+        || (wall(), clock()).prop_map(|(ts, clock)| Single { ts, logical: u64::MAX, clock }),
+        check_saturated,
     );
     let max_walk = ctx.pick(50usize, 200usize);
     ctx.run_prop(
